@@ -1,4 +1,4 @@
-HOOK_COMMITS = ["4a5d5ec", "354857d", "e9ccdd0", "ed88e47"]
+HOOK_COMMITS = ["4a5d5ec", "354857d", "e9ccdd0", "ed88e47", "f886bcb"]
 NOT_CLAIMED = {}
 META = {
     "C01": {
